@@ -534,7 +534,7 @@ class Family:
     name = ""
 
 
-def make_family(name, rng, tgen, t0, span, layout="tensor"):
+def make_family(name, rng, tgen, t0, span, layout="tensor", big=False):
     """span = |ts[-1]-ts[0]| is used to keep (Lipschitz constant)*span within the stated bound"""
     f = Family()
     f.name = name
@@ -548,10 +548,14 @@ def make_family(name, rng, tgen, t0, span, layout="tensor"):
     def rndn(*shape):
         return torch.randn(tuple(shape), dtype=dt, generator=tgen)
     shape = rng.choice([(1,), (3,), (2, 3), (4, 2), (2, 2, 2), ()])
+    if big:     # ensemble of 24 components with independent random coefficients (order tests)
+        shape = (24,)
     if name == "linear":
         n = rng.choice([1, 2, 3, 5])
         batch = rng.choice([(), (), (2,), (3,), (2, 2)])
         shared = rng.random() < 0.5
+        if big:
+            n, batch, shared = 4, (6,), False
         A = rndn(*(() if shared else batch), n, n)
         nrm = torch.linalg.matrix_norm(A, ord=2)
         L = rng.uniform(0.2, 1.0) * lmax
@@ -576,21 +580,24 @@ def make_family(name, rng, tgen, t0, span, layout="tensor"):
         f.L = float(r.max())
         f.exact = lambda t: (1.0 / (1.0 + (1.0 / y0 - 1.0) * torch.exp(-r * (t - t0)))).reshape(-1)
     elif name == "separable":
-        tm = max(abs(t0), abs(t0) + span)
-        a = (0.3 + 0.7 * rnd(*shape)) * lmax / max(tm, 0.5) * (1 if rng.random() < 0.7 else -1)
+        # y_i' = -a_i (t + s_i) y_i with a per-component shift s_i of the time origin
+        sh = 2 * rnd(*shape) - 1
+        tm = max(abs(t0), abs(t0) + span) + 1.0
+        a = (0.3 + 0.7 * rnd(*shape)) * lmax / tm * (1 if rng.random() < 0.7 else -1)
         y0 = rndn(*shape) + 0.5
-        f.fcn = lambda t, y: -a * t * y
+        f.fcn = lambda t, y: -a * (t + sh) * y
         f.y0 = y0
         f.L = float(a.abs().max()) * tm
-        f.exact = lambda t: (y0 * torch.exp(-a * (t * t - t0 * t0) / 2)).reshape(-1)
+        f.exact = lambda t: (y0 * torch.exp(-a * ((t + sh) ** 2 - (t0 + sh) ** 2) / 2)).reshape(-1)
     elif name == "bernoulli":
-        # y' = q y^2 cos t, y = 1/(1/y0 - q (sin t - sin t0)); 1/y0 >= 3.3, q<=1 keeps y <= 0.77
+        # y_i' = q y_i^2 cos(t + s_i), y = 1/(1/y0 - q (sin(t+s) - sin(t0+s))); 1/y0 >= 3.3, q<=1 keeps y <= 0.77
         q = min(1.0, lmax / 1.6)
+        sh = 6.3 * rnd(*shape)
         y0 = 0.1 + 0.2 * rnd(*shape)
-        f.fcn = lambda t, y: q * y * y * torch.cos(t)
+        f.fcn = lambda t, y: q * y * y * torch.cos(t + sh)
         f.y0 = y0
         f.L = 1.6 * q
-        f.exact = lambda t: (1.0 / (1.0 / y0 - q * (math.sin(t) - math.sin(t0)))).reshape(-1)
+        f.exact = lambda t: (1.0 / (1.0 / y0 - q * (torch.sin(t + sh) - torch.sin(t0 + sh)))).reshape(-1)
     elif name in ("harmonic", "damped"):
         shp = rng.choice([(1,), (3,), (2, 2)])
         wmax = max(min(math.sqrt(lmax) if lmax > 1 else lmax, 2.0), 1e-3)
@@ -732,7 +739,7 @@ def cases(seed, tier):
     n = 0
     for rep in range(8 if q else 80):
         for m in METHODS:
-            for fam in NONLINEAR + ["linear"]:
+            for fam in ["linear", "logistic", "bernoulli"]:
                 add("order", n, method=m, family=fam, dir="inc" if (n + rep) % 3 else "dec")
                 n += 1
     # 4. accuracy of the adaptive methods
@@ -1127,7 +1134,10 @@ def _errors(fam, pts, ytf):
     return errs, ymax
 
 
-ORDER_MARGIN = 0.5
+# observed-order margins: smallest local order seen on the unchanged tree over 2000 draws per family: p+1-0.10 (rk23, rk4, rk38),
+# p+1-0.01 (euler), p+1-0.74 (rk45: Dormand-Prince minimises the principal error term, so the next term shows at usable step sizes)
+ORDER_MARGIN = {"euler": 0.3, "rk4": 0.4, "rk38": 0.4, "rk23": 0.4, "rk45": 1.0}
+GLOBAL_ORDER_MARGIN = 0.5
 
 
 def run_order(desc, obs):
@@ -1141,11 +1151,8 @@ def run_order(desc, obs):
     p = R["order"]
     sgn = 1.0 if direction == "inc" else -1.0
     t0 = rng.uniform(-1.5, 1.5)
-    h = {1: 0.02, 3: 0.12, 4: 0.2, 5: 0.3}[p] * rng.uniform(0.7, 1.3)
-    for _ in range(20):
-        fam = make_family(famname, rng, tgen, t0, 2.0)
-        if _flat0(fam.y0).numel() >= 6:
-            break
+    h = {1: 0.02, 3: 0.1, 4: 0.16, 5: 0.3}[p] * rng.uniform(0.7, 1.3)
+    fam = make_family(famname, rng, tgen, t0, 2.0, big=True)
     key = _key(desc, famname)
     errs = []
     for hh in (h, h / 2, h / 4):
@@ -1176,7 +1183,7 @@ def run_order(desc, obs):
     obs.count("order_tests")
     obs.note(observed_order=order)
     _track(obs, "min_order_excess", -(order - (p + 1)))
-    obs.check(order >= p + 1 - ORDER_MARGIN, "order:%s:%s" % (m, famname),
+    obs.check(order >= p + 1 - ORDER_MARGIN[m], "order:%s:%s" % (m, famname),
               "one-step errors %s at h, h/2, h/4: observed local order %.2f, declared %d+1" % (["%.3e" % x for x in errs], order, p))
     obs.nontrivial = True
 
@@ -1282,7 +1289,7 @@ def run_fixedacc(desc, obs):
         order = math.log2(max(e1) / max(e2))
         obs.count("order_tests")
         _track(obs, "min_global_order_excess", -(order - p))
-        obs.check(order >= p - ORDER_MARGIN, "global_order:%s:%s" % (m, famname),
+        obs.check(order >= p - GLOBAL_ORDER_MARGIN, "global_order:%s:%s" % (m, famname),
                   "halving every step changes the global error from %.3e to %.3e: observed order %.2f, declared %d" % (max(e1), max(e2), order, p))
     else:
         obs.count("order_below_floor")
